@@ -11,6 +11,7 @@ import time
 import traceback
 
 _W = {}
+_RETRIES = [0]
 
 
 def _init(repo_root, here):
@@ -20,6 +21,18 @@ def _init(repo_root, here):
     E = Engine(repo_root)
     load_contracts(E)
     _W['E'] = E
+
+
+def _retry_unknown(its, timeout_ms):
+    """a verdict must not flip to `unknown` because the machine is busy: obligations the solver gave up on
+    get one more attempt with three times the budget (at most a handful per task)"""
+    from pyvc.run import discharge, _SLOW
+    for it in its:
+        if it.result == 'unknown' and it.assertions is not None and _RETRIES[0] < 6 and _SLOW.get(it.clause, 0) < 3:
+            _RETRIES[0] += 1            # per process: a tree that is really broken must not cost minutes per clause
+            it.result = None
+            _SLOW[it.clause] = 0
+            discharge(it, timeout_ms * 3)
 
 
 def _work(task):
@@ -45,6 +58,7 @@ def _work(task):
         its = [Item(o.clause, o.kind, o.pc, o.goal, o.func, o.lineno, o.note, dict(o.extra, trail=o.trail, target=target))
                for o in res.obligations]
         discharge_all(its, timeout_ms)
+        _retry_unknown(its, timeout_ms)
         for it in its:
             rec = {'clause': it.clause, 'kind': it.kind, 'func': it.func, 'lineno': it.lineno, 'note': it.note,
                    'result': it.result, 'seconds': it.seconds, 'by': it.by,
